@@ -795,7 +795,7 @@ def plan(prop, tier):
                                 continue
                             add(module=m, algo=a, purge=p, backend='cached_dict', script=sc, scenario=sname)
                 if a in BOUNDED and prop != 'C05':
-                    add(module=m, algo=a, backend='cached_dict', N=3 if q else 4, preload=2 if q else 3, scenario='preload')
+                    add(module=m, algo=a, backend='cached_dict', N=3 if (q or a == 'rr' or prop == 'C07') else 4, preload=2 if q else 3, scenario='preload')
                 add(module=m, algo=a, backend='none', N=4 if q else 5, raises=True)
                 if prop in ('C01', 'C05', 'C15'):
                     for b in ('none', 'cached_dict'):
@@ -895,7 +895,7 @@ def plan(prop, tier):
             for a in ('no',) + BOUNDED:
                 purges = (False, True) if a in BOUNDED else (False,)
                 for p in purges:
-                    add(module=m, algo=a, purge=p, backend='cached_dict', N=N)
+                    add(module=m, algo=a, purge=p, backend='cached_dict', N=N if (q or a != 'rr') else 5)
                     if not q:
                         add(module=m, algo=a, purge=p, backend='cached_dict', keymap='str', N=5)
                     if m == 'std' or not q:
@@ -903,7 +903,7 @@ def plan(prop, tier):
                             add(module=m, algo=a, purge=p, backend=b, keymap='strflat' if b == 'sql' else 'raw', N=3 if q else 4, maxsize=1 if q else 'sym')
                     add(module=m, algo=a, purge=p, backend='cached_dict', N=3, ops='mgmt')
                     if a in BOUNDED:
-                        add(module=m, algo=a, purge=p, backend='cached_dict', N=4 if q else 6, second=2 if q else 3, second_same=True, scenario='redecorate')
+                        add(module=m, algo=a, purge=p, backend='cached_dict', N=4 if q else (5 if a == 'rr' else 6), second=2 if q else 3, second_same=True, scenario='redecorate')
                     # what another process sees (new handle / new sqlite connection), and results an archive cannot encode
                     if m == 'std' or not q:
                         for b in ('file', 'dir', 'sqlfile'):
